@@ -30,6 +30,7 @@ CONSTANTS
   KillUnresponsive,  \* TRUE: shutdown_processor() kills a daemon that does not answer "alive"
   RawHelperLines,    \* TRUE: helper header/argument lines are read without notice interpretation
   FramingExact,      \* TRUE: every counted payload has need = have
+  NBashrc,           \* how many profile bashrcs Python transfers on request_bashrcs (>= 1)
   Budget             \* how many requests (inherit / helper / bashrc / key ...) one phase may emit
 
 Msg(cmd, arg, rid) == [cmd |-> cmd, arg |-> arg, rid |-> rid, need |-> 0, have |-> 0, data |-> FALSE]
@@ -208,7 +209,7 @@ PyRead(py, m) ==
                      [] m.cmd = "receive_env" -> RR(py, <<>>, TRUE, FALSE)
                      [] m.cmd \in Helpers -> RR([py EXCEPT !.mode = "helper", !.sub = 5], <<>>, TRUE, FALSE)
                      [] m.cmd = "request_bashrcs" ->
-                          RR([py EXCEPT !.mode = "bashrc"], <<Msg("path", "-", py.rid), Msg("bashrcfile", "-", py.rid)>>, TRUE, FALSE)
+                          RR([py EXCEPT !.mode = "bashrc", !.sub = NBashrc], <<Msg("path", "-", py.rid), Msg("bashrcfile", "-", py.rid)>>, TRUE, FALSE)
                      [] m.cmd = "request_sandbox_summary" ->
                           RR(py, <<Msg("end_sandbox_summary", "-", py.rid)>>, TRUE, FALSE))
          [] py.mode = "helper" ->      \* 5 header/argument lines, then exactly ONE reply line
@@ -216,7 +217,9 @@ PyRead(py, m) ==
               ELSE IF py.sub > 1 THEN RR([py EXCEPT !.sub = py.sub - 1], <<>>, TRUE, FALSE)
               ELSE RR([py EXCEPT !.mode = "handler", !.sub = 0], <<Msg("ipcreply", "0", py.rid)>>, TRUE, FALSE)
          [] py.mode = "bashrc" ->      \* expect("next") after the bashrc, then end_request
-              IF m.cmd = "next" THEN RR([py EXCEPT !.mode = "handler"], <<Msg("end_request", "-", py.rid)>>, m.rid = py.rid, FALSE)
+              IF m.cmd = "next" THEN
+                  IF py.sub > 1 THEN RR([py EXCEPT !.sub = py.sub - 1], <<Msg("path", "-", py.rid), Msg("bashrcfile", "-", py.rid)>>, m.rid = py.rid, FALSE)
+                  ELSE RR([py EXCEPT !.mode = "handler", !.sub = 0], <<Msg("end_request", "-", py.rid)>>, m.rid = py.rid, FALSE)
               ELSE RR(Raise(py, "UnhandledCommand"), <<>>, TRUE, FALSE)
 
 (* ====================================================================================
